@@ -22,9 +22,12 @@
 
 using namespace vh;
 
-static const char *NAMES[] = {"", "a", "ab", "abc", "b", "ba", "bar", "baz", "foo", "qux", "x1", "zz"};
-static const int NNAMES = 12;
-static const char *REGEXES[] = {".*", "a.*", "ba[rz]", "b.*", "(foo|qux)", ".", "ab?c?", "[a-f].*", ".+z", "x1|zz|a", "b", "q"};
+// the same tables as harness/router.cpp (the generator is shared): the last two names contain a NUL byte
+static const std::string NAMES[] = {"", "a", "ab", "abc", "b", "ba", "bar", "baz", "foo", "qux", "x1", "zz",
+                                    std::string("zz\0", 3), std::string("zz\0y", 4)};
+static const int NNAMES = 14;
+static const char *REGEXES[] = {".*", "a.*", "ba[rz]", "b.*", "(foo|qux)", ".", "ab?c?", "[a-f].*", ".+z", "x1|zz|a", "b", "q",
+                                "zz", "zz.y", "zz."};
 enum { TAG_IDLE = 1, TAG_CB = 2 };
 
 struct Lvl { bool rx; int64_t id; };
@@ -55,7 +58,27 @@ struct World {
     std::deque<tulz::USubscription> handles;
     std::vector<std::vector<int64_t>> rxset;
     int nrx = 0;
-    struct Rec { std::vector<int64_t> key; int64_t o; bool present = true; bool unsubReturned = false; bool unsubPending = false; };
+    struct Rec { std::vector<int64_t> key; int64_t o; bool present = true; bool unsubReturned = false; bool unsubPending = false;
+                 long subCall = 0, subRet = -1, unsubCall = -1, unsubRet = -1; };   // logical times (free exploration)
+    // free exploration: operations of different threads overlap at every scheduling point, so the monitors reason about
+    // the intervals [call, return] of the operations instead of instants
+    bool freeMode = false;
+    long clk = 0;
+    std::vector<int> epoch;            // per thread: number of notify calls started
+    std::vector<std::unique_ptr<tulz::USubscription>> fhandles;   // by observer id (assigned at the subscribe call)
+    struct Inside { int u; int ep; };
+    std::vector<Inside> delivering(int t) const {
+        std::vector<Inside> r;
+        for (size_t u = 0; u < cbIndex.size(); ++u) if ((int) u != t && cbIndex[u] >= 1) r.push_back({(int) u, epoch[u]});
+        return r;
+    }
+    // the whole mutation [call, return] lies inside one delivery of another thread (which therefore held the read lock
+    // throughout): the thread was delivering at the call and is inside a callback of the same notify at the return
+    bool insideOneDelivery(const std::vector<Inside> &atCall) const {
+        for (auto &i : atCall)
+            if (epoch[i.u] == i.ep && cbIndex[i.u] >= 1 && th[i.u]->reason == vs::R_POINT && th[i.u]->tag == TAG_CB) return true;
+        return false;
+    }
     std::vector<Rec> ref;
     std::vector<Line> events;
     std::vector<std::vector<Op>> progs;
@@ -103,6 +126,19 @@ static void threadMain(int t) {
                 if (W->ref[o].unsubReturned) W->complain("C11: callback of observer " + std::to_string(o) + " runs after its unsubscribe() returned");
                 vs::point(TAG_CB);
             };
+            if (W->freeMode) {
+                int64_t o = (int64_t) W->ref.size();
+                *idp = o;
+                W->ref.push_back({op.key, o, true});
+                W->ref[o].subCall = ++W->clk;
+                W->fhandles.emplace_back(nullptr);
+                auto atCall = W->delivering(t);
+                auto h = std::make_unique<tulz::USubscription>(W->router.subscribe<int>(buildKey(p), body));
+                W->fhandles[o] = std::move(h);
+                W->ref[o].subRet = ++W->clk;
+                if (W->insideOneDelivery(atCall)) W->complain("C11: a subscribe was carried out completely while another thread was in the middle of one delivery");
+                break;
+            }
             W->handles.emplace_back(W->router.subscribe<int>(buildKey(p), body));
             int64_t o = (int64_t) W->ref.size();
             *idp = o;
@@ -113,6 +149,16 @@ static void threadMain(int t) {
         }
         case 1: {
             // a handle is used by one thread at a time (handle operations presuppose a valid handle)
+            if (W->freeMode) {
+                if (op.h < 0 || (size_t) op.h >= W->fhandles.size() || !W->fhandles[op.h] || W->ref[op.h].unsubCall >= 0) break;
+                W->ref[op.h].unsubCall = ++W->clk;
+                auto atCall = W->delivering(t);
+                (*W->fhandles[op.h])->unsubscribe();
+                W->ref[op.h].unsubRet = ++W->clk;
+                W->ref[op.h].unsubReturned = true;
+                if (W->insideOneDelivery(atCall)) W->complain("C11: an unsubscribe was carried out completely while another thread was in the middle of one delivery");
+                break;
+            }
             if (op.h < 0 || (size_t) op.h >= W->handles.size() || !W->ref[op.h].present || W->ref[op.h].unsubPending) { W->events.push_back({2, t, 0}); break; }
             W->ref[op.h].unsubPending = true;
             W->handles[op.h]->unsubscribe();
@@ -125,6 +171,30 @@ static void threadMain(int t) {
         }
         case 6: {
             W->cbIndex[t] = 0; W->curCalls[t].clear();
+            if (W->freeMode) {
+                ++W->epoch[t];
+                long callAt = ++W->clk;
+                size_t n = W->router.notify(buildKey(op.pat), (int) op.arg);
+                long retAt = ++W->clk;
+                // linearizability, stated so that it cannot misjudge: every observer whose subscribe had returned before
+                // the call and whose unsubscribe was not even called before the return must have been reached; nobody
+                // may be reached whose subscribe was called after the return or whose unsubscribe returned before the call
+                std::set<int64_t> got;
+                for (auto &cv : W->curCalls[t]) {
+                    if (!got.insert(cv.first).second) W->complain("C11: one notify reached observer " + std::to_string(cv.first) + " twice");
+                    if (cv.second != op.arg) W->complain("C11: a callback received a value of another notify");
+                }
+                for (auto &r : W->ref) {
+                    if (!W->keyMatch(op.pat, r.key)) { if (got.count(r.o)) W->complain("C11: a notify reached an observer whose key does not match the pattern"); continue; }
+                    bool must = r.subRet >= 0 && r.subRet < callAt && (r.unsubCall < 0 || r.unsubCall > retAt);
+                    bool may = r.subCall < retAt && (r.unsubRet < 0 || r.unsubRet > callAt);
+                    if (must && !got.count(r.o)) W->complain("C11: a notify missed observer " + std::to_string(r.o) + ", subscribed before the call and not unsubscribed before the return");
+                    if (!may && got.count(r.o)) W->complain("C11: a notify reached observer " + std::to_string(r.o) + ", which was not subscribed at any instant between the call and the return");
+                }
+                (void) n;
+                W->cbIndex[t] = -1;
+                break;
+            }
             // the subscriptions as of the call (no mutation may complete until the return: monitored above)
             std::vector<std::pair<int64_t, int64_t>> expect;
             size_t n = W->router.notify(buildKey(op.pat), (int) op.arg);
@@ -137,6 +207,12 @@ static void threadMain(int t) {
             break;
         }
         case 11: {
+            if (W->freeMode) {
+                auto atCall = W->delivering(t);
+                W->router.shrink(buildKey(op.pat));
+                if (W->insideOneDelivery(atCall)) W->complain("C11: a shrink was carried out completely while another thread was in the middle of one delivery");
+                break;
+            }
             W->router.shrink(buildKey(op.pat));
             if (W->othersInsideNotify(t)) W->complain("C11: a shrink took effect while a delivery was in progress on another thread");
             W->events.push_back({2, t, 0});
@@ -191,7 +267,8 @@ int main() {
             W->progs.push_back(prog);
             emit({});
         }
-        W->pc.assign(nt, 0); W->cbIndex.assign(nt, -1); W->curCalls.assign(nt, {});
+        W->pc.assign(nt, 0); W->cbIndex.assign(nt, -1); W->curCalls.assign(nt, {}); W->epoch.assign(nt, 0);
+        W->freeMode = c.lines[0].size() == 3;
         for (int t = 0; t < nt; ++t) W->th.push_back(vs::spawn([t] { threadMain(t); }));
         for (int t = 0; t < nt; ++t) vs::step(W->th[t]);
         auto status = [&](int t) -> int64_t {
